@@ -6,20 +6,22 @@ ID = "C17"
 MODEL_MODULES = ["Base", "Index", "NN"]
 HANDLERS = ["h_c17.ml"]
 CLAIM = dict(
-    text=("Kernel-checked (Coq, no axioms), for all extents and parameters of the stated domains: (1) the output shape of the "
-          "convnd pipeline (reshape by groups, pad, sliding_window, expand, multiply, sum, reshape, stride slice) for conv1d and conv2d "
-          "equals PyTorch's floor((n+2p-d(k-1)-1)/s)+1 formula with batch 1, any channels/groups/kernel/stride/padding/dilation "
-          "(batch 2 refuted: the batch extent is never copied by conv_reshape_input); (2) index::sliding_window and index::expand "
-          "(the two non-trivial index maps) read exactly source (.., y+b, x+a) resp. (.., y/(sh+1), x/(sw+1)) or the fill value, in bounds; "
-          "(3) the output channel o of the reshaped weight/sum uses group o mod g, which equals PyTorch's o div (O/g) for every o "
-          "iff g = 1 or O = g (refuted otherwise); (4) shape_pool2d equals PyTorch's formula in floor mode and in ceil mode when no "
-          "window starts outside the input (refuted for H=3,k=1,s=3), windows are the clipped ranges, complete in floor mode. "
+    text=("Kernel-checked (Coq, no axioms), for all extents and parameters: (1) the output shape of the convnd pipeline (reshape by "
+          "groups, pad, sliding_window, expand, multiply, sum, reshape, stride slice) for conv1d and conv2d equals PyTorch's "
+          "floor((n+2p-d(k-1)-1)/s)+1 formula for any batch, channels, groups, kernel, stride, padding, scalar or per-axis dilation, bias; "
+          "(2) index::sliding_window, index::expand and index::pad (the non-trivial index maps) read exactly source (.., y+b, x+a), "
+          "(.., y/(sh+1), x/(sw+1)) or the fill value, resp. i - before or the fill value, in bounds; (3) through the three reshapes output "
+          "channel o uses its own weight row and the input channels of group o div (O/g), PyTorch's blocked grouping, for every batch and "
+          "every divisor g; (4) shape_pool2d equals PyTorch's formula in floor and in ceil mode (including 'the last window starts inside "
+          "the input'), for any rank >= 2; windows are the clipped nested-loop ranges, complete in floor mode, never empty in ceil mode. "
+          "These statements are about the code after the three C17 repairs (batch extent + blocked groups, per-axis dilation order, ceil-mode "
+          "last window); against a tree without them the check reports the failing inputs as violations. "
           "The element equation conv = nested loop is proved for the index maps per stage and corresponded end to end "
           "(partial: no single closed element theorem). Everything else is differential: conv1d/conv2d integer data exactly against the "
           "extracted nested-loop spec; max/avg pooling; softmax/softmin/norms/linear/bilinear/pairwise_distance/cosine_similarity on "
           "doubles against a hand-written OCaml nested-loop oracle (not extracted) with relative tolerance 1e-9; libm and float "
           "rounding are outside the model."),
-    ref="5.17", technique="Coq proof (symbolic evaluation of the shape pipeline at rank 3/4, induction-free arithmetic) + differential correspondence with the extracted model", extra="")
+    ref="5.17", technique="Coq proof (symbolic evaluation of the shape pipeline at rank 3/4, index-map lemmas) + differential correspondence with the extracted model", extra="")
 RULE = ("seeded samples of the property's parameter product: batch 1..2, C,O 1..4 with every common divisor as groups, spatial 1..7, "
         "kernel 1..3, stride 1..3, padding 0..2, dilation 1..2 (uniform and per-axis), optional bias, positive output only; five argument-kind "
         "variants (None defaults / run-time scalars / per-axis arrays / compile-time groups / fixed-dimension operands); pooling: rank 2..4, H,W 1..7, kernel 1..3, "
@@ -27,9 +29,9 @@ RULE = ("seeded samples of the property's parameter product: batch 1..2, C,O 1..
         "non-trivial = a spatial extent > 1 and (kernel > 1 or more than one channel); distinct = distinct case lines")
 THEOREM_STATUS = {
     "proved": ["C17_conv2d_out_shape", "C17_conv1d_out_shape", "C17_sliding_window_elem", "C17_expand_elem", "C17_pad_elem",
-               "C17_conv_reshape_maps", "C17_conv_group_on_domain", "C17_pool_out_shape_on_domain", "C17_pool_extent_meaning", "C17_pool_window"],
+               "C17_conv_reshape_maps", "C17_pool_out_shape", "C17_pool_extent_meaning", "C17_pool_window"],
     "partial": [],
-    "refuted": ["C17_conv_batch_refuted", "C17_conv_group_refuted", "C17_conv_dilation_pair_refuted", "C17_pool_out_shape_ceil_refuted"]}
+    "refuted": []}
 ASSUMPTIONS = ["shape_pool2d's float division is modelled as exact rational division (true for extents below 2^23)",
                "floating-point routines are compared with a hand-written OCaml oracle, not with an extracted model",
                "conv element equality (model = nested loop) is established per case by the runner on conv_dom, not by a closed Coq theorem"]
@@ -168,32 +170,9 @@ def distribution(streams):
     return {"ops": dict(ops), "variants": dict(var), "conv_classes": dict(grp)}
 
 
-def _empty_window(n, k, s):
-    o = -((-(n - k)) // s) + 1
-    return (o - 1) * s >= n
-
-
 def classify(line, impl, spec, model):
-    """known-finding classes: only inputs of the class AND the implementation shows the modelled behaviour"""
-    t = line.split(" "); op = t[0]
-    failed = impl.startswith("trap") or impl == "nothing"      # unwrap of an empty maybe / refused view
-    same_as_model = equal(impl, model) or (failed and model == "trap")
-    if op in ("conv1d", "conv2d"):
-        arrs = _arrays(line); ish, wsh = arrs[0][0], arrs[1][0]; g = int(t[-1][2:]); variant = t[1][2:]
-        dil = _lists(line)[2]
-        if ish[0] > 1:
-            # the refused reshape is unwrapped: undefined behaviour (trap, Nothing, or a garbage-shaped value on fixed-dim operands)
-            return "conv_batch_gt1" if model == "trap" else None
-        if g > 1 and wsh[0] // g > 1 and same_as_model:
-            return "conv_groups_interleaved"
-        if variant == "pair" and len(set(dil)) > 1 and same_as_model:
-            return "conv_dilation_pair_swapped"
-        return None
-    if op in ("max_pool2d", "avg_pool2d"):
-        sh = _arrays(line)[0][0]; ls = _lists(line); k, s = ls[0], ls[1]; ceil = int(t[-1][2:])
-        if ceil and (_empty_window(sh[-2], k[0], s[0]) or _empty_window(sh[-1], k[1], s[1])) and failed and model == "trap":
-            return "pool_ceil_window_outside"
-        return None
+    """no known-finding class is left: the four classes of the first round (conv_batch_gt1, conv_groups_interleaved,
+    conv_dilation_pair_swapped, pool_ceil_window_outside) are repaired by fixes/C17_*.diff and every mismatch is a violation"""
     return None
 
 
